@@ -58,7 +58,8 @@ RULE = ('structured random programs (straight-line blocks, forward bne over bloc
         'addressing with negative offsets, csrr/csrw in loops, register-file dump epilogue) + far-branch family (taken bne with '
         '|offset| 2044..4096 bytes both directions over filler) + false-producer family (sw / bne whose inst[11:7] immediate bits equal a source register '
         'of the next 1-3 instructions) + accelerator family (xcelreg writes / reads next to csrw proc2mngr, csrr mngr2proc, loads, stores, '
-        'consumers; 1-cycle memory with stalling sink / source) + directed boundary-immediate programs, rejection-sampled with the ISA '
+        'consumers; 1-cycle memory with stalling sink / source) + mem-before-branch family (lw / sw / csrw proc2mngr directly in front of taken '
+        'and not-taken bne, forward and backward, observable first instruction at the target; memory latency 2-4, stalls, sink delays) + directed boundary-immediate programs, rejection-sampled with the ISA '
         'oracle; x timing configs (src/sink delay 0-5, stall prob {0,.3,.6}, latency 1-5) x {FL,CL,RTL}; '
         'non-trivial = program stores and takes a backward branch or runs >= 60 instructions; distinct = (program text, inputs, timing, level)')
 
@@ -225,6 +226,13 @@ DIRECTED = [
    "csrr x7, mngr2proc\ncsrw 0x7ff, x7\ncsrw proc2mngr, x7\ncsrw proc2mngr, x6\ncsrw proc2mngr, x5\ncsrr x8, 0x7e0\nadd x9, x8, x8\n"
    "csrr x0, 0x7f0\ncsrw proc2mngr, x8\ncsrw proc2mngr, x9\ncsrw 0x7e1, x0\ncsrw proc2mngr, x9\ncsrr x10, 0x7e1\ncsrw proc2mngr, x10\n",
    [0xcafe1234]),
+  # memory operations directly in front of taken / not-taken branches (branch waits in X behind them), target's first
+  # instruction observable, forward and backward
+  ("csrr x1, mngr2proc\naddi x3, x0, 3\naddi x20, x0, 0x111\naddi x21, x0, 0x222\nlw x5, 0(x1)\nlw x6, 4(x1)\nbne x3, x0, T1\n"
+   "csrw proc2mngr, x21\nT1:\ncsrw proc2mngr, x20\ncsrw proc2mngr, x5\nsw x6, 8(x1)\nsw x5, 12(x1)\nbne x0, x3, T2\ncsrw proc2mngr, x21\n"
+   "addi x21, x21, 1\nT2:\ncsrw proc2mngr, x3\naddi x4, x0, 3\nB1:\ncsrw proc2mngr, x4\naddi x4, x4, -1\nlw x7, 8(x1)\nsw x7, 16(x1)\nlw x8, 16(x1)\n"
+   "bne x4, x0, B1\ncsrw proc2mngr, x8\nlw x9, 0(x1)\nlw x10, 4(x1)\nbne x3, x3, T3\ncsrw proc2mngr, x21\nT3:\ncsrw proc2mngr, x20\n"
+   "csrw proc2mngr, x20\ncsrw proc2mngr, x21\nbne x1, x0, T4\ncsrw proc2mngr, x21\nT4:\ncsrw proc2mngr, x9\n", [0x2020]),
   # pointer chasing: each load feeds the next address
   ("csrr x1, mngr2proc\nsw x1, 0(x1)\nlw x2, 0(x1)\nlw x2, 0(x2)\nlw x2, 0(x2)\naddi x2, x2, 8\nsw x2, 0(x1)\nlw x1, 0(x1)\nsw x1, 0(x1)\nlw x5, 0(x1)\n"
    "csrw proc2mngr, x5\ncsrw proc2mngr, x2\n", [0x2020]),
@@ -326,7 +334,7 @@ def check_assembled(ck, pr, enc_replies):
     elif e != str(a):
       ck.disagreement('Model.encode≈tinyrv0_encoding.assemble', case, e, str(a))
 
-def check_programs(ck, nprog, ncfg, sizes, fuel, nfar=0, far_ncfg=1, nalias=0, nxcel=0):
+def check_programs(ck, nprog, ncfg, sizes, fuel, nfar=0, far_ncfg=1, nalias=0, nxcel=0, nmembr=0):
   rng = ck.rng
   progs = [directed_program(t, i, rng) for t, i in DIRECTED]
   for _ in range(nfar):                              # far-branch family: taken bne with |offset| around / above 2048 bytes
@@ -339,6 +347,11 @@ def check_programs(ck, nprog, ncfg, sizes, fuel, nfar=0, far_ncfg=1, nalias=0, n
   for _ in range(nxcel):                             # accelerator family; timing: 1-cycle memory, sink and source that stall
     p = u.gen_program(rng, rng.choice([60, 100, 140]), fuel, family='xcel')
     p['cfgs'] = [[rng.randint(0, 5), rng.randint(1, 5), 0, 1], rand_cfg(rng)]
+    progs.append(p)
+  for _ in range(nmembr):                            # memory ops / csrw right before branches; slow memory, stalls, sink delays
+    p = u.gen_program(rng, rng.choice([60, 100, 140]), fuel, family='membr')
+    p['cfgs'] = [[rng.randint(0, 3), rng.choice([0, 0, 1, 3]), 0, 2],
+                 [rng.randint(0, 5), rng.randint(0, 5), rng.choice([0, 0.3, 0.6]), rng.choice([2, 3, 4])]]
     progs.append(p)
   for _ in range(nprog):
     progs.append(u.gen_program(rng, rng.choice(sizes), fuel))
@@ -408,8 +421,8 @@ def run(ck):
   check_encoding(ck, 400 if quick else 6000)
   exhaustive_decode(ck, quick)
   check_cksum(ck, 150 if quick else 3000)
-  if quick: check_programs(ck, 20, 2, [25, 50, 80, 120], 4000, nfar=3, far_ncfg=1, nalias=4, nxcel=4)
-  else: check_programs(ck, 300, 2, [20, 40, 60, 90, 140, 200], 6000, nfar=40, far_ncfg=2, nalias=40, nxcel=40)
+  if quick: check_programs(ck, 16, 2, [25, 50, 80, 120], 4000, nfar=3, far_ncfg=1, nalias=4, nxcel=4, nmembr=4)
+  else: check_programs(ck, 300, 2, [20, 40, 60, 90, 140, 200], 6000, nfar=40, far_ncfg=2, nalias=40, nxcel=40, nmembr=40)
   c20_pipe.run(ck)
 
 def replay(ck, data):
